@@ -1,6 +1,98 @@
 import TabulaModel.Util
-namespace Tabula.C11H
+import TabulaModel.Model.HeaderFooter
+/-!
+Line protocol of C11 (see harness/c11/c11.go):
 
-def handle (_op : String) (_args : List String) : String := "bad-op"
+* `c11.hf <page>…` — page = `idx:height:frag|frag|…`, frag = `hextext,x,y,w,h,fs`, numbers `n` or `n/d`;
+  answer `k` followed by one field per page: the kept fragment ids `0,2,3` or `-`.
+* `c11.detect <page>…` — answer `H=<hextext:ispn:p,p;…> F=<…>` (entries sorted, `-` when empty).
+* `c11.norm`, `c11.ispn`, `c11.match`, `c11.cpn`, `c11.charlevel`, `c11.docx`, `c11.odt`, `c11.pptx`.
+-/
+namespace Tabula.C11H
+open Tabula Tabula.HF
+
+def toStr (b : Bytes) : Str := b.map (·.toNat)
+def ofStr (s : Str) : Bytes := s.map UInt8.ofNat
+def hexS (s : Str) : String := hex (ofStr s)
+def unhexS (s : String) : Option Str := (unhex s).map toStr
+
+def parseRat (s : String) : Option Rat :=
+  match s.splitOn "/" with
+  | [n] => n.toInt?.map fun i => (i : Rat)
+  | [n, d] => do
+    let n ← n.toInt?
+    let d ← d.toNat?
+    if d = 0 then none else pure ((n : Rat) / (d : Rat))
+  | _ => none
+
+def parseFrag (s : String) : Option Frag :=
+  match s.splitOn "," with
+  | [t, x, y, w, h, fs] => do
+    pure { text := ← unhexS t, x := ← parseRat x, y := ← parseRat y, w := ← parseRat w, h := ← parseRat h, fs := ← parseRat fs }
+  | _ => none
+
+def parsePage (s : String) : Option Page :=
+  match s.splitOn ":" with
+  | [i, h, fs] => do
+    let frags ← if fs == "" then some [] else (fs.splitOn "|").mapM parseFrag
+    pure { index := ← i.toInt?, height := ← parseRat h, frags := frags }
+  | _ => none
+
+def parseHexList (s : String) : Option (List Str) :=
+  if s == "" then some [] else (s.splitOn ",").mapM unhexS
+
+def b01 (b : Bool) : String := if b then "1" else "0"
+
+def keptField (res : Result) (p : Page) : String :=
+  let b := bands res.cfg p.frags p.height
+  let cl := isCharacterLevel p.frags
+  let kept := p.frags.zipIdx.filter fun fi => !isInHeaderFooter res p.index b cl fi.1
+  if kept.map (·.1) != filterFragments res p.index p.frags p.height then "model-inconsistent"
+  else if kept.isEmpty then "-"
+  else ",".intercalate (kept.map fun fi => toString fi.2)
+
+def insertStr (a : String) : List String → List String
+  | [] => [a]
+  | b :: l => if a ≤ b then a :: b :: l else b :: insertStr a l
+
+def regionsField (rs : List Region) : String :=
+  if rs.isEmpty then "-"
+  else
+    let es := rs.map fun r =>
+      s!"{hexS r.text}:{b01 r.isPageNumber}:{",".intercalate (r.pages.map toString)}"
+    ";".intercalate (es.foldr insertStr [])
+
+def mkCand (t : Str) : Cand := { text := t, x := 0, y := 0, w := 0, h := 0, page := 0 }
+def mkFrag (t : Str) : Frag := { text := t, x := 0, y := 0, w := 0, h := 0, fs := 0 }
+
+def handle (op : String) (args : List String) : String :=
+  match op, args with
+  | "c11.hf", ps => match ps.mapM parsePage with
+    | some pages =>
+      let res := detect defaultConfig pages
+      " ".intercalate ("k" :: pages.map (keptField res))
+    | none => "bad-op"
+  | "c11.detect", ps => match ps.mapM parsePage with
+    | some pages =>
+      let res := detect defaultConfig pages
+      s!"H={regionsField res.headers} F={regionsField res.footers}"
+    | none => "bad-op"
+  | "c11.norm", [h] => match unhexS h with
+    | some s => hexS (normalize s) | none => "bad-op"
+  | "c11.ispn", [h] => match unhexS h with
+    | some s => b01 (isPageNumberPattern s) | none => "bad-op"
+  | "c11.match", [a, b, pn] => match unhexS a, unhexS b with
+    | some a, some b => b01 (textsMatch a b (pn == "1")) | _, _ => "bad-op"
+  | "c11.cpn", [l] => match parseHexList (l.drop 2).toString with
+    | some ts => b01 (containsPageNumberPattern (ts.map mkCand)) | none => "bad-op"
+  | "c11.charlevel", [l] => match parseHexList (l.drop 2).toString with
+    | some ts => b01 (isCharacterLevel (ts.map mkFrag)) | none => "bad-op"
+  | "c11.docx", [t, hs, fs, exH, exF] | "c11.odt", [t, hs, fs, exH, exF] =>
+    match unhexS t, parseHexList (hs.drop 2).toString, parseHexList (fs.drop 2).toString with
+    | some t, some hs, some fs => b01 (shouldExcludeParagraph t hs fs (exH == "1") (exF == "1"))
+    | _, _, _ => "bad-op"
+  | "c11.pptx", [h] => match unhexS h with
+    | some s => b01 (isFooterPlaceholder s) ++ b01 (isHeaderPlaceholder s) | none => "bad-op"
+  | _, _ => "bad-op"
 
 end Tabula.C11H
